@@ -633,7 +633,7 @@ class NP2Converter:
 
         :return:
         """
-        if self.check_completed and self.delete_original:
+        if self.check_completed and self.delete_original and self.nsamples == self.sr.ns:
             _logger.info(f"Removing original file in folder {self.ap_file}")
             self.sr.close()
             self.ap_file.unlink()
